@@ -22,3 +22,19 @@ package api
 //@   assert[ordered] a.0 <= a.1 && a.1 <= listLen
 //@   assert[first] index == 0 ==> a.0 == 0
 //@   assert[covers] index * count >= listLen ==> a.0 == listLen && a.1 == listLen
+
+// Newest-first pages over a chain of height H: page p of size s covers the heights [H - (p+1)s + 1, H - p*s] cut to [1, H]; the
+// range handed to the by-height getter is exactly that window (over the integers, for every 32-bit page index whose successor
+// does not wrap), and a page past the first block is answered empty without a lookup.
+//@ func LedgerApi.GetAccountBlocksByHeight(l, address, height, count)
+//@   trusted
+//@   modifies nothing
+//@ func LedgerApi.GetMomentumsByHeight(l, height, count)
+//@   trusted
+//@   modifies nothing
+//@ func LedgerApi.GetAccountBlocksByPage(l, address, pageIndex, pageSize) -> (res, err)
+//@   requires l != nil
+//@   at-call GetAccountBlocksByHeight assert[page-window] pageIndex + 1 < pow2(32) && frontier.Height < pow2(62) ==> arg2 == max(1, frontier.Height - (pageIndex + 1) * pageSize + 1) && arg3 == min(pageSize, frontier.Height - pageIndex * pageSize) && arg3 >= 1
+//@ func LedgerApi.GetMomentumsByPage(l, pageIndex, pageSize) -> (res, err)
+//@   requires l != nil
+//@   at-call GetMomentumsByHeight assert[page-window] pageIndex + 1 < pow2(32) && frontier.Height < pow2(62) ==> arg1 == max(1, frontier.Height - (pageIndex + 1) * pageSize + 1) && arg2 == min(pageSize, frontier.Height - pageIndex * pageSize) && arg2 >= 1
